@@ -81,7 +81,7 @@ func generate(r *hxlib.Run, emit0 func(hxlib.Case)) {
 	for i := 0; i < r.Budget(50, 400); i++ {
 		emit(valueMatrixCase(r, i))
 	}
-	nHist := r.Budget(1500, 30000)
+	nHist := r.Budget(1500, 15000)
 	for i := 0; i < nHist && !processPoisoned; i++ {
 		emit(historyCase(r, "history"))
 		if i%5 == 0 {
@@ -91,7 +91,7 @@ func generate(r *hxlib.Run, emit0 func(hxlib.Case)) {
 			emit(implOnlyCase(r))
 		}
 	}
-	nTrace := r.Budget(2000, 60000)
+	nTrace := r.Budget(2500, 30000)
 	for i := 0; i < nTrace && !processPoisoned; i++ {
 		emit(traceCase(r))
 	}
@@ -104,11 +104,11 @@ func main() {
 	// no log output from the config package's error paths (and no goroutine per suppressed line)
 	log.SetLogLevel(log.CriticalLevel)
 	hxlib.Main(&hxlib.Harness{
-		Prop: "C04",
-		Rule: rule,
+		Prop:     "C04",
+		Rule:     rule,
 		Generate: generate,
-		NewExec: func(r *hxlib.Run) hxlib.Exec { return countingExec{inner: newExec(r), r: r} },
-		Monitor: monitor,
+		NewExec:  func(r *hxlib.Run) hxlib.Exec { return countingExec{inner: newExec(r), r: r} },
+		Monitor:  monitor,
 		DisSig: func(line, impl, model string) string {
 			return "corr:" + strings.Fields(line)[0]
 		},
